@@ -168,6 +168,28 @@ Theorem c05_wrong_major : forall maj b r, b / 32 <> maj ->
   raw_u8 maj (b :: r) = Err BadMajor /\ raw_u32 maj (b :: r) = Err BadMajor /\ raw_u64 maj (b :: r) = Err BadMajor.
 Proof. exact wrong_major_rejected. Qed.
 
+(* WRONG DATA TYPE.  A member value that starts with a major type the member's type cannot start with (an
+   unsigned where text is expected, a map where bytes are expected, ...; null for optional members is not a
+   fault) is rejected by the member decoder, never as a missing parameter ... *)
+Theorem c05_wrong_type_value : forall e k t b r,
+  ~ In (b / 32) (first_majors e k t) -> 0 <= b < 256 -> rejected_not_missing (dec e k t (b :: r)).
+Proof. exact wrong_type_rejected. Qed.
+
+(* ... and the parameter map passes that error on unchanged, after any run of valid parameters before it:
+   the status is the one of the member decoder's error, i.e. InvalidCbor by c05_mapping *)
+Theorem c05_member_error_propagates : forall e k name s d fs entries fd n i' ce,
+  lookup e name = Some (DStruct true s d fs) ->
+  Forall (idx_entry_ok (dec e k) fs) entries ->
+  NoDup (map en_label entries) ->
+  ~ In (f_label fd) (map en_label entries) ->
+  0 <= idx_key fd < 18446744073709551616 -> find_idx_field (idx_key fd) fs = Some fd ->
+  blen entries < n < 4294967296 ->
+  dec e k (if f_opt fd then inner_ty (f_ty fd) else f_ty fd) i' = Err ce ->
+  dec e (S k) (TNamed name)
+      (put_head 5 n ++ List.concat (map enc_idx_entry entries) ++ put_head 0 (idx_key fd) ++ i')%list
+  = Err ce.
+Proof. exact dec_indexed_member_error. Qed.
+
 Theorem c05_empty_message : forall e, request_deserialize spec_tables e [] = RErr 0x12.
 Proof. intros e. cbn [request_deserialize]. rewrite spec_status_of_cerr. reflexivity. Qed.
 
@@ -218,3 +240,5 @@ Eval vm_compute in "ASSUMPTIONS c05_nonminimal_length". Print Assumptions c05_no
 Eval vm_compute in "ASSUMPTIONS c05_eight_byte_length". Print Assumptions c05_eight_byte_length.
 Eval vm_compute in "ASSUMPTIONS c05_indefinite_length". Print Assumptions c05_indefinite_length.
 Eval vm_compute in "ASSUMPTIONS c05_wrong_major". Print Assumptions c05_wrong_major.
+Eval vm_compute in "ASSUMPTIONS c05_wrong_type_value". Print Assumptions c05_wrong_type_value.
+Eval vm_compute in "ASSUMPTIONS c05_member_error_propagates". Print Assumptions c05_member_error_propagates.
